@@ -65,6 +65,7 @@ def make_case(seed, shard_index, i):
         inp.append([nm, rows])
         labels.add("null:subtexel-scaffold")
     painted = rng.random() < 0.5
+    prefix = rng.choice(["SUPER_", "SUPER_", "CHR_", "RL", "Chr"]) if painted else "SUPER_"
     pt = []
     pieces = []
     for s in inp:
@@ -87,9 +88,11 @@ def make_case(seed, shard_index, i):
         pt.append([f"Scaffold_{len(pt) + 1}", [["F", s[0], 1, end, 1, ["Painted"] if painted else []]]])
         pieces.append({"s": s[0], "start": 1, "end": end, "L": L})
     labels.add("null:painted" if painted else "null:unpainted")
+    if prefix != "SUPER_":
+        labels.add("null:non-default-prefix")
     if not pt:
         return None
-    return {"kind": "remap", "gen": "null", "t": t, "input": inp, "pretext": pt, "pieces": pieces, "prefix": "SUPER_",
+    return {"kind": "remap", "gen": "null", "t": t, "input": inp, "pretext": pt, "pieces": pieces, "prefix": prefix,
             "painted": painted, "labels": sorted(labels), "via_text": rng.random() < 0.15, "id": [seed, shard_index, i]}
 
 
@@ -147,10 +150,11 @@ def oracle(case, outcome, ctx):
                 return
         nums = []
         for nm, ln in named:
-            if not nm.startswith("SUPER_") or not nm[6:].isdigit():
+            pf = case.get("prefix", "SUPER_")
+            if not nm.startswith(pf) or not nm[len(pf):].isdigit():
                 ctx.violation("painted-name-not-prefix-rank", f"{nm}\n{desc}\noutput names={[s[0] for s in scs]}", stripped)
                 return
-            nums.append((int(nm[6:]), ln))
+            nums.append((int(nm[len(pf):]), ln))
         nums.sort()
         if [n for n, _ in nums] != list(range(1, len(nums) + 1)):
             ctx.violation("painted-ranks-have-holes", f"{nums}\n{desc}", stripped)
@@ -190,6 +194,7 @@ def gates(c, tier):
         "label:null:bait-overshoots": 500,
         "label:null:subtexel-absent": 100,
         "label:null:subtexel-present": 100,
+        "label:null:non-default-prefix": 200,
         "label:null:subtexel-multi-contig": 50,
         "label:in:both-strands": 500,
         "label:in:gapless-junction": 300,
